@@ -23,7 +23,7 @@ I_INVS = ['I_Pdeps', 'I_Pdependents', 'I_Future', 'I_RunningCap']
 
 SPECS = {
     'C01': dict(
-        invs=['A_C01_Keys', 'A_C01_Values', 'A_C01_Digest'], props=[],
+        invs=['A_C01_Returns', 'A_C01_Keys', 'A_C01_Values', 'A_C01_Digest'], props=[],
         fam=dict(quick=dict(n=3, ntypes=1, maxpars=(UNL,), maxws=(1, 2), backends=('fork', 'spawn', 'serial'),
                             cached='all-subsets', reqs='rich'),
                  thorough=dict(n=3, ntypes=2, maxpars=(1, UNL), maxws=(1, 2, 3), backends=('fork', 'spawn', 'serial'),
@@ -31,10 +31,12 @@ SPECS = {
         title='returned dict = requested tasks in order, each with its own reference value'),
     'C02': dict(
         invs=['A_C02_RealResult'], props=['A_C02_SubmitAfterDeps', 'A_C02_RunAfterDeps', 'A_C02_StartAfterSubmit'],
-        fam=dict(quick=dict(n=3, ntypes=1, maxpars=(UNL,), maxws=(1, 2), backends=('fork', 'spawn', 'serial'),
-                            cached='none', reqs='subsets', fails='singles'),
+        fam=dict(quick=[dict(n=3, ntypes=1, maxpars=(UNL,), maxws=(1, 2), backends=('fork', 'spawn', 'serial'),
+                             cached='none', reqs='subsets', fails='singles'),
+                        dict(n=3, ntypes=1, maxpars=(UNL,), maxws=(2,), backends=('fork', 'serial'), cached='all-subsets',
+                             reqs='roots', badloads='singles', nonempty_deps=True)],
                  thorough=dict(n=3, ntypes=2, maxpars=(1, UNL), maxws=(1, 2, 3), backends=('fork', 'spawn', 'serial'),
-                               cached='all-subsets', reqs='subsets', fails='all-subsets')),
+                               cached='all-subsets', reqs='subsets', fails='all-subsets', badloads='singles', sample=60000)),
         title='no run() before every dependency finished; reads give the real result or raise'),
     'C03': dict(
         invs=['A_C03_OnlyNeeded', 'A_C03_AtMostOnce', 'A_C03_LoadIffCached'], props=['A_C03_OutcomeStable'],
@@ -48,9 +50,9 @@ SPECS = {
         fam=dict(quick=[dict(n=3, ntypes=2, maxpars=(1, 2, UNL), maxws=(1, 2, 3), backends=('fork', 'serial'),
                              cached='none', reqs='roots', fails='singles', sample=2500),
                         dict(n=4, ntypes=1, maxpars=(2,), maxws=(3, 4), backends=('fork',), cached='none',
-                             reqs='roots', max_edges=1, must=True)],
+                             reqs='roots', max_edges=1, must=True, tcache_opts=[(True,), (False,)])],
                  thorough=[dict(n=4, ntypes=2, maxpars=(1, 2, 3, UNL), maxws=(1, 2, 3, 16), backends=('fork', 'spawn'),
-                                cached='none', reqs='roots', fails='singles', sample=15000),
+                                cached='none', reqs='roots', fails='singles', sample=15000, tcache_opts=[(True, True), (False, True)]),
                            dict(n=4, ntypes=2, maxpars=(2, 3), maxws=(3, 4, 16), backends=('fork', 'spawn'), cached='none',
                                 reqs='roots', max_edges=2, must=True)]),
         title='|slot| <= max_workers and per-type count <= max_parallel in every state'),
@@ -75,7 +77,7 @@ SPECS = {
                                sample=40000)),
         title='failures (exceptions, deaths) stay confined to the failing task and its dependents'),
     'C11': dict(
-        invs=['A_C11_NoIdleWait'], props=[],
+        invs=['A_C11_NoIdleWait'], props=[], int_sims=dict(quick=500, thorough=6000),
         fam=dict(quick=dict(n=3, ntypes=2, maxpars=(1, UNL), maxws=(1, 2), backends=('fork', 'serial'),
                             cached='none', reqs='roots', fails='singles', cofs=(True, False)),
                  thorough=dict(n=3, ntypes=2, maxpars=(1, 2, UNL), maxws=(1, 2, 3), backends=('fork', 'spawn', 'serial'),
@@ -95,7 +97,7 @@ SPECS = {
         title='results held exactly while a direct dependent still needs them; nothing held at return'),
 }
 
-LOG_BEH = ['L1', 'P1', 'L2 P1', 'P1 F', 'P1 F P1', 'E1', 'W1 P2', 'P2 F F', '']
+LOG_BEH = ['L1', 'P1', 'L2 P1', 'P1 F', 'P1 F P1', 'E1', 'W1 P2', 'P2 F F', '', 'L450', 'P1 L450 E1']
 
 
 def beh_logs(job, rnd):
@@ -235,6 +237,13 @@ def run(prop: str, tier: str) -> int:
         scheds = harness.simulate_schedules(sample, scratch, num=sim['num'], seed=seed,
                                             max_int=spec.get('max_int', 0))
         jobs = make_jobs(prop, sample, scheds, seed, extra_defaults=len(sample))
+        if spec.get('int_sims'):
+            # the same configurations under one interrupt (placed by TLC): the run must still end
+            ischeds = harness.simulate_schedules(sample, scratch, num=spec['int_sims'][tier], seed=seed + 1, max_int=1)
+            ijobs = make_jobs(prop, sample, ischeds, seed + 1)
+            for j in ijobs:
+                j['id'] = j['id'].replace('-s', '-i')
+            jobs += ijobs
         jrnd = random.Random(seed + 5)
         if spec.get('jobfn'):
             for j in jobs:
